@@ -50,7 +50,9 @@ RULE = ("Hypothesis draws (2-3 participants with 1-2 start/stop rounds, body "
         "the lifetimes of at least two participants overlapped (one started "
         "or stopped while another was starting, running or stopping) and at "
         "least two reached the running state; distinct by the sequence of "
-        "(participant, operation) pairs")
+        "(participant, operation) pairs; enumerated: every placement of "
+        "one preemption between two participants, leavers interrupted in "
+        "their stop, runs of up to 70000 colliding random draws")
 ASSUMPTIONS = [
     "a participant = the real ParallelEtherCat.run() on a thread; processes "
     "are interleaved at the granularity of system calls (each proxied "
